@@ -212,34 +212,102 @@ theorem release_gen {N : Nat} {c : Conn} (b : Bool) (hg : GenC N c) : GenC N (c.
     unfold GenC at hg; rw [hh] at hg
     exact checkin_gen b hg
 
+/-- the record put back (or killed) by `checkin` is the held one: identity and clocks as before -/
+theorem checkin_gen_held {N : Nat} {db : DB} (b : Bool) (hg : Gen N db true) : Gen N (db.checkin b) true := by
+  have h0 := checkin_gen b hg
+  have hid : (db.checkin b).raw.rid = db.raw.rid ∧ (db.checkin b).raw.born = db.raw.born ∧
+      (db.checkin b).clock = db.clock ∧ (db.checkin b).invalTime = db.invalTime ∧
+      (db.checkin b).nextRid = db.nextRid := by
+    unfold DB.checkin
+    cases hr : db.reset with
+    | none => simp
+    | rollback =>
+      simp only []
+      cases b with
+      | true => simp
+      | false =>
+        simp only [Bool.false_eq_true, if_false]
+        cases hf : db.takeFault .rollback with
+        | mk o db1 =>
+          have hs : DataOnly db db1 := by
+            have := takeFault_dataOnly db .rollback; rw [hf] at this; exact this
+          cases o <;> simp [DB.kill, DB.rollback, hs.rid, hs.born, hs.clock, hs.invalTime, hs.nextRid]
+    | commit =>
+      simp only []
+      cases hf : db.takeFault .commit with
+      | mk o db1 =>
+        have hs : DataOnly db db1 := by
+          have := takeFault_dataOnly db .commit; rw [hf] at this; exact this
+        cases o <;> simp [DB.kill, DB.commit, hs.rid, hs.born, hs.clock, hs.invalTime, hs.nextRid]
+  obtain ⟨a, b', d⟩ := hg.1.held rfl
+  have hN := hg.2.held rfl
+  refine ⟨⟨h0.1.idle, h0.1.inval, fun _ => ?_⟩, ⟨h0.2.next, h0.2.idle, fun _ => ?_⟩⟩
+  · rw [hid.1, hid.2.1, hid.2.2.1, hid.2.2.2.1, hid.2.2.2.2]; exact ⟨a, b', d⟩
+  · rw [hid.1]; exact hN
+
+theorem releaseOrInterrupt_gen {N : Nat} {c : Conn} (b : Bool) (hg : GenC N c) :
+    GenC N (c.releaseOrInterrupt b).1 := by
+  unfold Conn.releaseOrInterrupt
+  split
+  · rename_i hcond
+    simp only [Bool.and_eq_true] at hcond
+    unfold GenC at hg ⊢
+    rw [hcond.1] at hg
+    show Gen N (c.db.checkin b) c.hasDbapi
+    rw [hcond.1]
+    exact checkin_gen_held b hg
+  · exact release_gen b hg
+
 theorem close_gen {N : Nat} {c : Conn} (hg : GenC N c) : GenC N c.close.1 := by
   unfold Conn.close
   cases ht : c.transaction with
-  | none => exact release_gen false hg
+  | none => exact releaseOrInterrupt_gen false hg
   | some t =>
     simp only []
     cases hr : (c.tClose t).2 with
     | ok =>
       have e : c.tClose t = ((c.tClose t).1, .ok) := by rw [← hr]
       rw [e, andThen_ok]
-      exact release_gen _ ((tClose_E c t).gen hg)
+      exact releaseOrInterrupt_gen _ ((tClose_E c t).gen hg)
     | _ =>
       rw [andThen_not_ok (by rw [hr]; simp)]
       exact (tClose_E c t).gen hg
 
 theorem gc_gen {N : Nat} {c : Conn} (hg : GenC N c) : GenC N c.gc := by
   unfold Conn.gc GenC
-  cases hh : c.hasDbapi with
-  | false =>
-    simp only [Bool.false_eq_true, if_false]
-    unfold GenC at hg; rw [hh] at hg; exact hg
+  cases hz : c.zombie with
   | true =>
     simp only [if_true]
-    unfold GenC at hg; rw [hh] at hg
-    exact checkin_gen false hg
+    exact gen_unheld hg
+  | false =>
+    simp only [Bool.false_eq_true, if_false]
+    cases hh : c.hasDbapi with
+    | false =>
+      simp only [Bool.false_eq_true, if_false]
+      unfold GenC at hg; rw [hh] at hg; exact hg
+    | true =>
+      simp only [if_true]
+      unfold GenC at hg; rw [hh] at hg
+      exact checkin_gen false hg
 
-theorem connect_gen {N : Nat} {db : DB} (hg : Gen N db false) : GenC N (Conn.connect db) :=
-  checkout_gen hg
+theorem connect_gen {N : Nat} {db : DB} (hg : Gen N db false) : GenC N (Conn.connect db) := by
+  have key : ∀ (l : List Bool) (d : DB), Gen N d true → Gen N (l.foldl DB.applyChar d) true := by
+    intro l
+    induction l with
+    | nil => intro d h; exact h
+    | cons b bs ih => intro d h; exact ih _ (data_gen (applyChar_dataOnly d b) h)
+  have he : db.checkout.engineOpts = db.engineOpts := by
+    unfold DB.checkout
+    split
+    · rfl
+    · rfl
+    · simp only []
+      split
+      · rfl
+      · split <;> rfl
+  show Gen N db.connectRaw true
+  unfold DB.connectRaw
+  exact key _ _ (checkout_gen hg)
 
 /-- API calls and lifecycle events after which the invariant is re-established
     (everything except the environment op `warm`) -/
@@ -283,11 +351,12 @@ theorem discError_spec (c : Conn) (hd : c.hasDbapi = true) :
   · rename_i h; simp [hni, h]
   · rename_i h; simp [Conn.onDisconnect, hni, h]
 
-theorem dbapiError_disc (c : Conn) (k : FKind) (hk : k = .disc ∨ c.db.listener = .forceDisc) :
+theorem dbapiError_disc (c : Conn) (k : FKind)
+    (hk : k = .disc ∨ (c.db.listener = .forceDisc ∧ k = .err)) :
     c.dbapiError k = c.discError := by
   unfold Conn.dbapiError
-  rcases hk with rfl | hl
-  · split <;> rfl
+  rcases hk with rfl | ⟨hl, rfl⟩
+  · simp
   · simp [hl]
 
 
@@ -424,11 +493,6 @@ theorem blocked_step {c : Conn} (hb : Blocked c) (op : Op) (hu : op.uses = true)
 
 
 /-! ### rollback() in the blocked state, then the transparent reconnect -/
-
-/-- `_previous_nested` always points to an older handle, and the current savepoint exists -/
-structure PrevWF (c : Conn) : Prop where
-  prev : ∀ h p, (c.txn h).prev = some p → p < h
-  nested : ∀ n, c.nested = some n → n < c.txns.length
 
 theorem deactivate_prev (c : Conn) (h x : Nat) : ((c.deactivate h).txn x).prev = (c.txn x).prev := by
   by_cases e : h = x
@@ -667,20 +731,27 @@ theorem plainError_poolSame (c : Conn) : PoolSame c c.plainError.1 := by
         | none => exact poolSame_data c _ (hs.trans (rollback_dataOnly db1)) hl
     · exact PoolSame.refl c
 
-/-- either nothing happened to connection and pool, or the call reports a disconnect -/
-def PSorDisc (c : Conn) (x : Conn × Res) : Prop := PoolSame c x.1 ∨ x.2 = .disconnect
+/-- either nothing happened to connection and pool, or the call reports a disconnect (or an
+    interrupt) -/
+def PSorDisc (c : Conn) (x : Conn × Res) : Prop :=
+  PoolSame c x.1 ∨ x.2 = .disconnect ∨ x.2 = .interrupted
 
 theorem dbapiError_ps (c : Conn) (k : FKind) (hl : c.db.listener ≠ .forceDisc) :
     PSorDisc c (c.dbapiError k) := by
   have hl' : (c.db.listener == .forceDisc) = false := by simpa using hl
   unfold Conn.dbapiError
-  simp only [hl', Bool.false_eq_true, if_false]
   cases k with
   | disc =>
-    right
+    simp only [hl', Bool.false_eq_true, if_false]
+    right; left
     show c.discError.2 = .disconnect
     unfold Conn.discError; split <;> rfl
-  | err => left; exact plainError_poolSame c
+  | err =>
+    simp only [hl', Bool.false_eq_true, if_false]
+    left; exact plainError_poolSame c
+  | kbi =>
+    right; right
+    simp [Conn.kbiError]
 
 theorem andThen_ps {c : Conn} {x : Conn × Res} {f : Conn → Conn × Res} (h1 : PSorDisc c x)
     (h2 : ∀ c1, PoolSame c c1 → PSorDisc c1 (f c1)) : PSorDisc c (andThen x f) := by
@@ -691,7 +762,9 @@ theorem andThen_ps {c : Conn} {x : Conn × Res} {f : Conn → Conn × Res} (h1 :
          · exact Or.inl (h1.trans h)
          · exact Or.inr h)
       | exact Or.inl h1
-  · simp only at h1; subst h1; exact Or.inr rfl
+  · rcases h1 with h1 | h1
+    · simp only at h1; subst h1; exact Or.inr (Or.inl rfl)
+    · simp only at h1; subst h1; exact Or.inr (Or.inr rfl)
 
 theorem dbapiCall_ps (c : Conn) (p : FPoint) (f : DB → DB) (hf : ∀ db, DataOnly db (f db))
     (hfl : ∀ db, (f db).listener = db.listener) (hl : c.db.listener ≠ .forceDisc) :
@@ -734,10 +807,10 @@ theorem runSql_ps (c : Conn) (q : Sql) (hl : c.db.listener ≠ .forceDisc) : PSo
         cases o2 with
         | some db2 => exact Or.inl (poolSame_data c db2 (apply_dataOnly _ _ _ _ ha) (apply_listener _ _ _ _ ha))
         | none =>
-          simp only []
-          rcases dbapiError_ps c .err hl with h | h
-          · exact Or.inl h
-          · right; simp [h]
+          have hl' : (c.db.listener == .forceDisc) = false := by simpa using hl
+          have e : c.dbapiError .err = c.plainError := by simp [Conn.dbapiError, hl']
+          simp only [e]
+          exact Or.inl (plainError_poolSame c)
 
 theorem execute_ps (c : Conn) (q : Sql) (hd : c.hasDbapi = true) (hl : c.db.listener ≠ .forceDisc) :
     PSorDisc c (c.execute q) := by
